@@ -171,7 +171,7 @@ def x_conformance(wd, binp, seed, names, nsched=60, nrand=40, scheds=None):
         res["traces"] = len(xs)
         res["events"] = v["total"]
         res["steps"] = json.load(open(stf)).get("steps", 0)
-        res["drift"] = len(v["drift"])
+        res["drift"] = v.get("ndrift", len(v["drift"]))
         res["samples"] = ["%s: %s" % (name, json.dumps(x)) for x in v["drift"][:2]]
         shutil.rmtree(d, ignore_errors=True)
         return res
